@@ -1,5 +1,5 @@
 SPECIFICATION Spec
-CONSTANTS NH = 2 Gran = 2 Hdr = 64 PChunk = 64 MaxLen = 3 MaxArg = 3 Prune = FALSE Api = "xarr" CtrMax = 3
+CONSTANTS NH = 2 Gran = 2 Hdr = 64 PChunk = 64 MaxLen = 3 MaxArg = 3 Prune = FALSE Api = "xarr" CtrMax = 2
 CONSTRAINT Bound
 VIEW View
 INVARIANTS TypeOK AliasOK Refines NoTouch
